@@ -532,8 +532,9 @@ public:
          if(ps == list.last())
          {
             // because we want to extend the last vector we must not shrink its max memory usage
-            // in order to ensure the missing memory
-            ensureMem(newmax - ps->max(), false);
+            // in order to ensure the missing memory; ensureMem() may pack the memory, which reduces ps->max() to
+            // ps->size(), so the amount inserted below can be as large as newmax - sz
+            ensureMem(newmax - sz, false);
 #ifndef NDEBUG
             Nonzero<R>* olddata = SVSetBaseArray::data;
             SVSetBaseArray::insert(memSize(), newmax - ps->max());
